@@ -188,6 +188,17 @@ def child_main():
         shared = adv.Builder()
     for item in job['jobs']:
         doc = item['doc']
+        if item.get('recompose'):
+            # one parsed model object is built, then edited in place (its extern declarations are replaced by those of
+            # document A2), then built again; elsewhere the same edited content is built without the earlier build
+            fct = _quiet(shell.parse, DOCS['A']())
+            other = _quiet(shell.parse, DOCS['A2']())
+            if item['prebuild']:
+                _quiet(build_event, 'A', fct, item['desc'], dict(job['env']), None, shared)
+            fct.externs[:] = other.externs
+            evt = _quiet(build_event, 'A+externs-of-A2', fct, item['desc'], dict(job['env'], prebuild=item['prebuild']), None, shared)
+            print(json.dumps(evt), flush=True)
+            continue
         if item.get('churn_batch'):
             # a batch of models of one document is parsed, built and released together, then a batch of the other
             # document is parsed and built: fresh models land on the addresses of released ones
@@ -311,6 +322,8 @@ def check_c08(tier, seed):
     for k in range(24 if tier == 'quick' else 120):
         doc = 'A' if k % 2 == 0 else 'A2'
         jobs.append({'doc': doc, 'desc': named_cfg('mts' if k % 3 else 'named', doc), 'order': None, 'churn': True})
+    for pre in (True, False):
+        jobs.append({'recompose': True, 'prebuild': pre, 'doc': 'A', 'desc': named_cfg('mts', 'A'), 'order': None})
     jobs.append({'churn_batch': ['A', 'A2', 'A', 'A2'], 'size': 12 if tier == 'quick' else 40, 'cfg': 'mts', 'doc': 'A',
                  'desc': named_cfg('mts', 'A'), 'order': None})
     # text that is not in Unicode normal form C (hash must be the MD5 of the UTF-8 bytes as they are)
